@@ -206,6 +206,12 @@ class Session:
                 self.peer.close()
             elif kind == "eof":
                 self.peer.close()
+            elif kind == "partial+eof":
+                # the peer goes away in the middle of a message: its first bytes arrive, then the end of stream
+                data, meta = self.wire(ev[1], None)
+                self.peer.send(data[:27])
+                self.peer.wait_for(lambda: not self.peer.conn.inbox, "partial-read", timeout=3.0)
+                self.peer.close()
             elif kind == "close":
                 self.d.close()
                 settle = SETTLE + 2.0
@@ -247,6 +253,15 @@ class Session:
             "cer-badutf8": lambda: node.cer(hbh, e2e, host=b"\xff\xfe", apps=apps),
             "cea-badutf8": lambda: node.cea(*self.last_request_ids(257), realm=b"\xc3\x28", apps=apps),
             "cer-vendor257": lambda: node.cer(hbh, e2e, apps=apps, extra=[(257, 0x80, 9999, b"")]),
+            # somebody else's CER / CEA padded with foreign-vendor AVPs whose codes are those of mandatory base
+            # AVPs (every vendor numbers its own AVPs: legal on the wire, no part of the peer's identity)
+            "cer-otherhost-vendorpad": lambda: node.cer(hbh, e2e, host="intruder.example", apps=apps, extra=FOREIGN_PAD),
+            "cer-otherrealm-vendorpad": lambda: node.cer(hbh, e2e, realm="realm.intruder", apps=apps, extra=FOREIGN_PAD[:1]),
+            "cea-otherhost-vendorpad": lambda: node.cea(*self.last_request_ids(257), host="intruder.example", apps=apps, extra=FOREIGN_PAD),
+            "cea-otherrealm-vendorpad": lambda: node.cea(*self.last_request_ids(257), realm="realm.intruder", apps=apps, extra=FOREIGN_PAD[:1]),
+            # two capabilities requests back to back (different identifiers) in one read
+            "cer+cer": lambda: node.cer(hbh, e2e, apps=apps) + node.cer(e2e ^ 0x55, hbh ^ 0xaa, apps=apps),
+            "cer+app": lambda: node.cer(hbh, e2e, apps=apps) + node.app_request(self.idseq, hbh=hbh ^ 1),
             "dpr-busy": lambda: node.dpr(hbh, e2e, cause=1),
             "dpr-dontwant": lambda: node.dpr(hbh, e2e, cause=2),
             "cea": lambda: node.cea(hbh, e2e, apps=apps),
@@ -284,7 +299,11 @@ class Session:
             meta["requests"] = [(280, hbh, e2e), (282, e2e ^ 0x55, hbh ^ 0xaa)]
         elif what == "cer+dwr":
             meta["requests"] = [(257, hbh, e2e), (280, e2e ^ 0x55, hbh ^ 0xaa)]
-        elif what in ("cer", "dwr", "dpr", "dwr+app", "cer-2ip", "dpr-busy", "dpr-dontwant", "cer-vendor257"):
+        elif what == "cer+cer":
+            meta["requests"] = [(257, hbh, e2e), (257, e2e ^ 0x55, hbh ^ 0xaa)]
+        elif what == "cer+app":
+            meta["requests"] = [(257, hbh, e2e)]
+        elif what in ("cer", "dwr", "dpr", "dwr+app", "cer-2ip", "dpr-busy", "dpr-dontwant", "cer-vendor257"):  # noqa
             meta["requests"] = [({"cer": 257, "dwr": 280, "dpr": 282, "dwr+app": 280, "cer-2ip": 257, "dpr-busy": 282,
                                   "dpr-dontwant": 282, "cer-vendor257": 257}[what], hbh, e2e)]
         return data, meta
@@ -301,6 +320,9 @@ class Session:
 # the reference relation (DESIGN.md Appendix A) and the per-step oracle
 # ---------------------------------------------------------------------------------------------------------------
 
+FOREIGN_PAD = [(257, 0x80, 99999, b"\x00\x01\x7f\x00\x00\x09"), (266, 0x80, 99999, (7).to_bytes(4, "big")), (269, 0x80, 99999, b"pad")]
+
+
 def judge(role, prev, o, history_ctx):
     """prev: previous observation (or None); o: observation after the event. -> [(signature, text)]"""
     errs = []
@@ -308,6 +330,8 @@ def judge(role, prev, o, history_ctx):
     kind = ev[0]
     if kind == "backlog+msg":
         kind = "msg"          # judged as the same inbound message(s); the backlog only changes the timing
+    if kind == "partial+eof":
+        kind = "eof"          # an incomplete message is no message: judged as the peer's disconnect
     what = ev[1] if kind == "msg" else None
     ps = prev["state"] if prev else "Closed"
     ns = o["state"]
@@ -337,7 +361,7 @@ def judge(role, prev, o, history_ctx):
                          f"G2: state Closed after {ev} but transport_released={o['transport_released']} "
                          f"socket_closed={o['sock_closed']} still_registered={o['sock_registered']}"))
     # G3: nothing handed to the application that was received while not Open
-    if o["delivered"] and ps not in OPENS:
+    if o["delivered"] and ps not in OPENS and not (what == "cer+app" and ns in OPENS):
         errs.append((sig(f"G3:delivered-while-{ps}"), f"G3: {o['delivered']} handed to the application in state {ps}"))
     # G5: base-protocol messages are consumed by the state machine, never handed to the application
     base_delivered = [d for d in o["delivered"] if d[0] in (257, 280, 282)]
@@ -352,7 +376,7 @@ def judge(role, prev, o, history_ctx):
     # G4: Open only through R4 / R8
     if ns in OPENS and ps not in OPENS:
         ok = (role == "client" and ps == "Wait-I-CEA" and what in ("cea-echo", "cea-echo-2ip")) or \
-             (role == "server" and ps == "Closed" and what in ("cer", "cer+dwr", "cer-2ip", "cer-vendor257"))
+             (role == "server" and ps == "Closed" and what in ("cer", "cer+dwr", "cer+cer", "cer+app", "cer-2ip", "cer-vendor257"))
         if not ok:
             errs.append((sig(f"G4:opened-without-capabilities-exchange:{ps}:{kind if what is None else what}"),
                          f"G4: state became {ns} from {ps} on {ev}"))
@@ -381,7 +405,8 @@ def judge(role, prev, o, history_ctx):
                 # a second Host-IP-Address is legitimate (RFC 6733: 1* { Host-IP-Address }); the statement only
                 # says when the connection may NOT open, so a stricter validator is not a violation
                 allow({"I-Open", "Wait-I-CEA", "Closed"} | ({"Closing"} if prev and prev.get("stop_req") else set()), "R4")
-            elif what in ("cea-otherhost", "cea-otherhost-2ip", "cea-incomplete", "cea", "cea-badutf8"):
+            elif what in ("cea-otherhost", "cea-otherhost-2ip", "cea-incomplete", "cea", "cea-badutf8", "cea-otherhost-vendorpad",
+                          "cea-otherrealm-vendorpad"):
                 allow({"Wait-I-CEA", "Closed"}, "R5")
             elif what == "cer":
                 # RFC 6733 election (R-Conn-CER while awaiting the CEA): the unimplemented Wait-Returns state
@@ -393,8 +418,17 @@ def judge(role, prev, o, history_ctx):
             allow({"Closed"}, "R7")
     else:
         if ps == "Closed" and kind == "msg" and o["conn"] != "none":
-            if what in ("cer", "cer+dwr"):
+            if what in ("cer", "cer+dwr", "cer+cer", "cer+app"):
                 allow({"R-Open"}, "R8")
+                # what the peer pipelined behind its CER is handled once Open, after the CEA is out
+                if len(emitted(257, False)) < 1:
+                    errs.append((sig(f"R8:no-cea:{what}"), f"R8: valid CER ({what}) answered by no CEA"))
+                if what == "cer+dwr" and len(emitted(280, False)) != 1:
+                    errs.append((sig("R10:dwa-count:cer+dwr"), f"R10: the DWR sent right behind the CER was answered by "
+                                                               f"{len(emitted(280, False))} DWA(s)"))
+                if what == "cer+app" and len(o["delivered"]) != 1:
+                    errs.append((sig("R14:delivery:cer+app"), f"R14: the request sent right behind the CER was handed over "
+                                                             f"{len(o['delivered'])} times"))
             elif what in ("cer-2ip", "cer-vendor257"):
                 # a valid CER of the configured peer with an additional (legitimate / foreign vendor) AVP
                 allow({"R-Open", "Closed"}, "R8")
@@ -544,8 +578,8 @@ def run_history(role, apps, history, watchdog=30):
 
 MSGS_OPEN = ["dwr", "dwr-badutf8", "dwr-badutf8-realm", "cer-badutf8", "dpr-busy", "dpr-dontwant", "dwr-otherhost", "dwr-otherhost-2realm", "dwa", "dwa-otherhost", "dpr", "dpr-otherhost", "dpa", "cer", "cer-otherhost",
              "cea", "cea-echo", "dwa-echo", "app-req", "app-ans", "req-otherhost", "req-otherrealm", "dwr+dwr", "dwr+app"]
-MSGS_WAIT_CEA = ["cea-echo", "cea-echo-2ip", "cea-badutf8", "cea-otherhost", "cea-otherhost-2ip", "cea-incomplete", "cer", "dwr", "dwa", "dpr", "dpa", "app-req", "app-ans"]
-MSGS_SERVER_CLOSED = ["cer", "cer-2ip", "cer-badutf8", "cer-vendor257", "cer-otherhost", "cer-otherhost-2ip", "cer-otherrealm", "cer-incomplete", "dwr", "app-req", "cea", "dpr"]
+MSGS_WAIT_CEA = ["cea-echo", "cea-echo-2ip", "cea-badutf8", "cea-otherhost", "cea-otherhost-2ip", "cea-otherhost-vendorpad", "cea-otherrealm-vendorpad", "cea-incomplete", "cer", "dwr", "dwa", "dpr", "dpa", "app-req", "app-ans"]
+MSGS_SERVER_CLOSED = ["cer", "cer+cer", "cer+app", "cer-2ip", "cer-badutf8", "cer-vendor257", "cer-otherhost", "cer-otherhost-2ip", "cer-otherhost-vendorpad", "cer-otherrealm-vendorpad", "cer-otherrealm", "cer-incomplete", "dwr", "app-req", "cea", "dpr"]
 
 
 class FsmModel:
@@ -596,6 +630,8 @@ class FsmModel:
             elif state == "Closed" and self.role == "server":
                 evs += [("msg", m) for m in MSGS_SERVER_CLOSED + ["cer+dwr"]]
             evs.append(("eof",))
+            if state in OPENS or state in ("Closing", "Wait-I-CEA"):
+                evs.append(("partial+eof", "app-req" if state in OPENS else "dpa"))
         if state in OPENS or state in ("Closing", "Wait-I-CEA"):
             evs.append(("close",))
         return evs
